@@ -198,6 +198,14 @@ func (svc *service) peekMessage(mtype message.Type, total int) (message.Message,
 	}
 
 	n, err = msg.Decode(b)
+	if err == nil {
+		// A PUBLISH with QoS 1 or 2 must carry a non-zero packet identifier
+		// (MQTT 3.1.1 [MQTT-2.3.1-1]). Forwarding it as it is would hand every
+		// subscriber a malformed packet: it is a protocol violation of the sender.
+		if pm, ok := msg.(*message.PublishMessage); ok && pm.QoS() != message.QosAtMostOnce && pm.PacketID() == 0 {
+			return nil, 0, fmt.Errorf("sendrecv/peekMessage: PUBLISH with QoS %d and packet identifier 0", pm.QoS())
+		}
+	}
 	return msg, n, err
 }
 
